@@ -82,6 +82,8 @@ const EVENT_BUDGET: usize = 40_000;
 pub struct Term {
     // at most this many bytes per read of the client (0 = everything that is there): replies arrive in segments
     chunk: usize,
+    // at most this many bytes accepted per write of the client (0 = all): partial writes
+    wchunk: usize,
     // reply scripts per command kind (plan.scripts): the next command of that kind is answered by the next script of its queue
     scripts: std::collections::HashMap<String, VecDeque<Value>>,
     call_mark: usize,
@@ -501,6 +503,7 @@ impl AsyncWrite for Conn {
             return Poll::Pending;
         }
         let mut c = self.st.lock().unwrap_or_else(|e| e.into_inner());
+        let buf = if term.wchunk > 0 { &buf[..buf.len().min(term.wchunk)] } else { buf };
         c.wbuf.extend_from_slice(buf);
         loop {
             if c.wbuf.len() < 3 {
@@ -777,6 +780,7 @@ pub fn run_scenario(sc: &Value) -> Value {
         let tcfg = sc.get("term").cloned().unwrap_or(json!({}));
         let term: Shared = Arc::new(Mutex::new(Term {
             chunk: tcfg.get("chunk").and_then(|c| c.as_u64()).unwrap_or(0) as usize,
+            wchunk: tcfg.get("wchunk").and_then(|c| c.as_u64()).unwrap_or(0) as usize,
             scripts: sc["plan"].get("scripts").and_then(|m| m.as_object()).map(|m| {
                 m.iter().map(|(k, v)| (k.clone(), v.as_array().map(|a| a.iter().cloned().collect()).unwrap_or_default())).collect()
             }).unwrap_or_default(),
